@@ -151,6 +151,43 @@ Proof.
 Qed.
 End Shape.
 
+(* paths, reachability and dominance need the frames only: no hypothesis on the input *)
+Section Frames.
+Variables c c' : cfg.
+Hypothesis F : Forall2 same_frame (c_blocks c) (c_blocks c').
+
+Lemma frames_nblocks : nblocks c' = nblocks c.
+Proof. unfold nblocks. eapply forall2_length. exact F. Qed.
+
+Lemma frames_edge i j : edge c' i j <-> edge c i j.
+Proof.
+  split; intros (b & Hb & Hin).
+  - destruct (forall2_nth _ _ _ _ _ F Hb) as (b0 & Hb0 & (_ & _ & _ & Hs)). exists b0. rewrite <- Hs. auto.
+  - destruct (forall2_nth_fwd _ _ _ _ _ F Hb) as (b1 & Hb1 & (_ & _ & _ & Hs)). exists b1. rewrite Hs. auto.
+Qed.
+
+Lemma frames_path i l j : path c' i l j <-> path c i l j.
+Proof.
+  split; intros H; induction H as [i Hi|i k l j He _ IH].
+  - constructor. rewrite <- frames_nblocks. exact Hi.
+  - econstructor; [apply frames_edge; exact He|exact IH].
+  - constructor. rewrite frames_nblocks. exact Hi.
+  - econstructor; [apply frames_edge; exact He|exact IH].
+Qed.
+End Frames.
+
+Theorem into_ssa_same_paths : forall frontier children c c',
+  into_ssa frontier children c = SOk c' ->
+  (forall i l j, path c' i l j <-> path c i l j) /\
+  (forall j, reachable c' j <-> reachable c j) /\
+  (forall i j, dominates c' i j <-> dominates c i j).
+Proof.
+  intros frontier children c c' H. pose proof (into_ssa_frames _ _ _ _ H) as F.
+  pose proof (frames_path _ _ F) as P. split; [exact P|]. split.
+  - intros j. split; intros (l & Hl); exists l; apply P; exact Hl.
+  - intros i j. split; intros Hd l Hl; apply Hd; apply P; exact Hl.
+Qed.
+
 (* a branch of the image stands where it stood *)
 Lemma same_kind_branch a s : same_kind a s -> (is_branch a <-> is_branch s).
 Proof.
@@ -285,3 +322,33 @@ Proof.
   unfold ssa_shape_of, loop_depths. intros H. induction H as [|b b' t t' ((_ & Hd & _) & _) _ IH]; [reflexivity|].
   simpl. rewrite Hd, IH. reflexivity.
 Qed.
+
+(* ------------------------------------------------------------------------ *)
+(* the hypothesis of into_ssa_shape cannot simply be dropped: the mirror      *)
+(* copies a phi assignment that already stands behind another statement, so   *)
+(* the output is not "phis, then statements that are no phis"                 *)
+(* ------------------------------------------------------------------------ *)
+Module Needed.
+Definition k0 : know := {| kval := None; kdeg := None |}.
+Definition m0 : meta := {| m_start := 0%N; m_end := 0%N; m_file := None |}.
+Definition xu : vname := {| vn_name := [120%N]; vn_suffix := None; vn_version := None |}.
+Definition c_phi : cfg :=
+  {| c_kind := KFunction; c_params := []; c_decls := [(xu, TLocal)];
+     c_blocks := [ {| b_index := 0%N; b_depth := 0%N;
+                      b_stmts := [ SCeq m0 (ENum 0 k0) (ENum 0 k0);
+                                   SSubst m0 xu OpVar (EPhi [] k0) None (Some TLocal) ];
+                      b_preds := []; b_succs := [] |} ] |}.
+
+Lemma phi_free_needed :
+  phi_free c_phi = false /\
+  exists c', into_ssa [[]] [[]] c_phi = SOk c' /\ ~ ssa_shape_of c_phi c'.
+Proof.
+  split; [reflexivity|]. eexists. split; [vm_compute; reflexivity|].
+  intros Sh. inversion Sh as [|b b' t t' [_ (P & B & Hs & HP & HB & _)] _]; subst. cbn [b_stmts] in Hs.
+  destruct P as [|p P'].
+  - simpl in Hs. subst B. inversion HB as [|? ? _ HB2]; subst. inversion HB2 as [|? ? Hn _]; subst.
+    apply Hn. do 7 eexists. reflexivity.
+  - simpl in Hs. injection Hs as Hp _. subst p. inversion HP as [|? ? Hphi _]; subst.
+    destruct Hphi as (m & x & op & args & k & sv & st & Habs). discriminate Habs.
+Qed.
+End Needed.
